@@ -135,6 +135,10 @@ def hash_mutable(obj) -> int:
     if isinstance(obj, slice):
         return hash((obj.start, obj.stop, obj.step))
 
+    if isinstance(obj, numbers.Number):
+        # the builtin hash of numbers collides for simple values (hash(-1) == hash(-2))
+        return hash((obj.__class__.__name__, repr(obj)))
+
     try:
         # try using the internal hash function
         return hash(obj)
